@@ -537,6 +537,24 @@ func racItemPool() []ast.ItemNode {
 	// negative zero keeps its sign bit through printing and parsing
 	add(func() ast.ItemNode { return ast.NewFloatNode(4, float32(math.Copysign(0, -1)), float32(0)) })
 	add(func() ast.ItemNode { return ast.NewFloatNode(8, math.Copysign(0, -1), 0.0) })
+	// deep nesting: 24 and 40 lists around a scalar, and 20 nested lists that each end in an ellipsis
+	for _, depth := range []int{24, 40} {
+		depth := depth
+		add(func() ast.ItemNode {
+			var it ast.ItemNode = ast.NewIntNode(1, 1)
+			for i := 0; i < depth; i++ {
+				it = ast.NewListNode(it, ast.NewASCIINode("k"))
+			}
+			return it
+		})
+	}
+	add(func() ast.ItemNode {
+		var it ast.ItemNode = ast.NewListNode(ast.NewUintNode(1, "deepv"), "...[0]")
+		for i := 1; i < 20; i++ {
+			it = ast.NewListNode(it, fmt.Sprintf("...[%d]", i))
+		}
+		return it
+	})
 	add(func() ast.ItemNode {
 		return ast.NewListNode(ast.NewIntNode(1, 1), ast.NewListNode(ast.NewASCIINode("x\"y"), ast.NewBooleanNode(true)), ast.NewListNode(), ast.NewUintNode(2, 7))
 	})
@@ -580,6 +598,13 @@ func racMessagePool() []*ast.DataMessage {
 			}
 		}
 	}
+	// message names are printed verbatim: percent signs and format verbs in a name are ordinary characters
+	for _, name := range []string{"Yield%", "100%d", "%s%v", "a%%b", "%!(NOVERB)"} {
+		for _, it := range few {
+			name, it := name, it
+			add(func() *ast.DataMessage { return ast.NewDataMessage(name, 6, 11, 2, "H<-E", it) })
+		}
+	}
 	return msgs
 }
 
@@ -608,6 +633,9 @@ func racCorpus() (accepted []string, rejected []string) {
 	accepted = append(accepted,
 		"S1F1 W H->E two\n<L\n  <U1 1 2 3>\n  <A \"x y\" 0x0A \"z\">\n  <BOOLEAN T F>\n  <F4 1.5 -2e3>\n  <I2 0x10 0b11 0o17 -5>\n>\n.\nS2F2 H<-E second\n<B 0xFF 0b1>\n.",
 		"S0F0 H<->E\n.",
+		// letters whose upper-case form has another UTF-8 length (U+0250, U+0271): byte offsets must be those of the text itself
+		"S1F1 W H->E \u0250name\n<U1 1>\n.",
+		"S3F5 H<-E n\u0271 // \u0250\u0271 trailing comment\n<A \"x\">\n.",
 	)
 	rejected = []string{
 		"S1F1 W H->E m\n<U1 256>\n.",
